@@ -253,6 +253,19 @@ Theorem C20_basis_matches_code :
 Proof. exact basis_matches_code. Qed.
 Print Assumptions C20_basis_matches_code.
 
+(* monomial_integral<K,P> for the derivative orders P = 4..11 (all K <= 10): the dumped constexpr matrices equal the model *)
+Theorem C20_monoint_high_matches_code :
+  fam exact1 d_monoint_4 (fun K => monomial_integral K 4) = true /\
+  fam exact1 d_monoint_5 (fun K => monomial_integral K 5) = true /\
+  fam exact1 d_monoint_6 (fun K => monomial_integral K 6) = true /\
+  fam exact1 d_monoint_7 (fun K => monomial_integral K 7) = true /\
+  fam exact1 d_monoint_8 (fun K => monomial_integral K 8) = true /\
+  fam exact1 d_monoint_9 (fun K => monomial_integral K 9) = true /\
+  fam exact1 d_monoint_10 (fun K => monomial_integral K 10) = true /\
+  fam exact1 d_monoint_11 (fun K => monomial_integral K 11) = true.
+Proof. exact monoint_high_matches_code. Qed.
+Print Assumptions C20_monoint_high_matches_code.
+
 (* entrywise meaning of `fam` *)
 Theorem C20_fam_entrywise : forall f d m, fam f d m = true -> forall K i j, (K <= 10)%nat ->
   (i < length (m K))%nat -> (j < length (nth i (m K) []))%nat -> f (get (nth K d []) i j) (get (m K) i j) = true.
